@@ -198,10 +198,16 @@ package sam
 //@   requires bh != nil && p != nil && len(bh.progs) <= 1000000 && progsA(bh) && progsB(bh) && progsC(bh)
 //@   modifies p.id, bh.progs, mapof(bh.seenProgs), backing(bh.progs), objects(Program)
 //@   loop 0 invariant @shift 0 <= i && i <= len(bh.progs) - int(old(p.id)) && len(bh.progs) == old(len(bh.progs)) - 1 && p.id == old(p.id) &&
-//@       0 <= old(p.id) && int(old(p.id)) <= len(bh.progs) && bh.seenProgs == old(bh.seenProgs)
-//@   loop 0 invariant @list forall k in 0..len(bh.progs) :: (bh.progs[k] != nil && bh.progs[k] != p && bh.progs[k].owner == bh &&
+//@       0 <= old(p.id) && int(old(p.id)) <= len(bh.progs) && bh.seenProgs == old(bh.seenProgs) && has(bh.seenProgs, p.uid)
+//@   loop 0 invariant @list forall k in 0..len(bh.progs) :: (bh.progs[k] != nil && bh.progs[k] != p && bh.progs[k].owner == bh && bh.progs[k].uid != p.uid &&
 //@       bh.progs[k] == old(bh.progs[ite(k < int(p.id), k, k + 1)]))
 //@   loop 0 invariant @ids forall k in 0..len(bh.progs) :: int(bh.progs[k].id) == ite(k < int(old(p.id)) + i, k, k + 1)
+//@   loop 0 invariant @tab forall k in 0..len(bh.progs) :: (has(bh.seenProgs, bh.progs[k].uid) &&
+//@       int(bh.seenProgs[bh.progs[k].uid]) == ite(k < int(old(p.id)) + i, k, k + 1))
+//@   loop 0 invariant @tabB forall s string :: has(bh.seenProgs, s) ==> (s == p.uid || (0 <= bh.seenProgs[s] && int(bh.seenProgs[s]) <= len(bh.progs) &&
+//@       0 <= ite(int(bh.seenProgs[s]) < int(old(p.id)) + i, int(bh.seenProgs[s]), int(bh.seenProgs[s]) - 1) &&
+//@       ite(int(bh.seenProgs[s]) < int(old(p.id)) + i, int(bh.seenProgs[s]), int(bh.seenProgs[s]) - 1) < len(bh.progs) &&
+//@       bh.progs[ite(int(bh.seenProgs[s]) < int(old(p.id)) + i, int(bh.seenProgs[s]), int(bh.seenProgs[s]) - 1)].uid == s))
 //@   ensures[C07] @invA progsA(bh)
 //@   ensures[C07] @invB progsB(bh)
 //@   ensures[C07] @invC progsC(bh)
@@ -238,10 +244,16 @@ package sam
 //@   requires bh != nil && rg != nil && len(bh.rgs) <= 1000000 && rgsA(bh) && rgsB(bh) && rgsC(bh)
 //@   modifies rg.id, bh.rgs, mapof(bh.seenGroups), backing(bh.rgs), objects(ReadGroup)
 //@   loop 0 invariant @shift 0 <= i && i <= len(bh.rgs) - int(old(rg.id)) && len(bh.rgs) == old(len(bh.rgs)) - 1 && rg.id == old(rg.id) &&
-//@       0 <= old(rg.id) && int(old(rg.id)) <= len(bh.rgs) && bh.seenGroups == old(bh.seenGroups)
-//@   loop 0 invariant @list forall k in 0..len(bh.rgs) :: (bh.rgs[k] != nil && bh.rgs[k] != rg && bh.rgs[k].owner == bh &&
+//@       0 <= old(rg.id) && int(old(rg.id)) <= len(bh.rgs) && bh.seenGroups == old(bh.seenGroups) && has(bh.seenGroups, rg.name)
+//@   loop 0 invariant @list forall k in 0..len(bh.rgs) :: (bh.rgs[k] != nil && bh.rgs[k] != rg && bh.rgs[k].owner == bh && bh.rgs[k].name != rg.name &&
 //@       bh.rgs[k] == old(bh.rgs[ite(k < int(rg.id), k, k + 1)]))
 //@   loop 0 invariant @ids forall k in 0..len(bh.rgs) :: int(bh.rgs[k].id) == ite(k < int(old(rg.id)) + i, k, k + 1)
+//@   loop 0 invariant @tab forall k in 0..len(bh.rgs) :: (has(bh.seenGroups, bh.rgs[k].name) &&
+//@       int(bh.seenGroups[bh.rgs[k].name]) == ite(k < int(old(rg.id)) + i, k, k + 1))
+//@   loop 0 invariant @tabB forall s string :: has(bh.seenGroups, s) ==> (s == rg.name || (0 <= bh.seenGroups[s] && int(bh.seenGroups[s]) <= len(bh.rgs) &&
+//@       0 <= ite(int(bh.seenGroups[s]) < int(old(rg.id)) + i, int(bh.seenGroups[s]), int(bh.seenGroups[s]) - 1) &&
+//@       ite(int(bh.seenGroups[s]) < int(old(rg.id)) + i, int(bh.seenGroups[s]), int(bh.seenGroups[s]) - 1) < len(bh.rgs) &&
+//@       bh.rgs[ite(int(bh.seenGroups[s]) < int(old(rg.id)) + i, int(bh.seenGroups[s]), int(bh.seenGroups[s]) - 1)].name == s))
 //@   ensures[C07] @invA rgsA(bh)
 //@   ensures[C07] @invB rgsB(bh)
 //@   ensures[C07] @invC rgsC(bh)
@@ -263,10 +275,16 @@ package sam
 //@   requires bh != nil && r != nil && len(bh.refs) <= 1000000 && refsA(bh) && refsB(bh) && refsC(bh)
 //@   modifies r.id, bh.refs, mapof(bh.seenRefs), backing(bh.refs), objects(Reference)
 //@   loop 0 invariant @shift 0 <= i && i <= len(bh.refs) - int(old(r.id)) && len(bh.refs) == old(len(bh.refs)) - 1 && r.id == old(r.id) &&
-//@       0 <= old(r.id) && int(old(r.id)) <= len(bh.refs) && bh.seenRefs == old(bh.seenRefs)
-//@   loop 0 invariant @list forall k in 0..len(bh.refs) :: (bh.refs[k] != nil && bh.refs[k] != r && bh.refs[k].owner == bh &&
+//@       0 <= old(r.id) && int(old(r.id)) <= len(bh.refs) && bh.seenRefs == old(bh.seenRefs) && has(bh.seenRefs, r.name)
+//@   loop 0 invariant @list forall k in 0..len(bh.refs) :: (bh.refs[k] != nil && bh.refs[k] != r && bh.refs[k].owner == bh && bh.refs[k].name != r.name &&
 //@       bh.refs[k] == old(bh.refs[ite(k < int(r.id), k, k + 1)]))
 //@   loop 0 invariant @ids forall k in 0..len(bh.refs) :: int(bh.refs[k].id) == ite(k < int(old(r.id)) + i, k, k + 1)
+//@   loop 0 invariant @tab forall k in 0..len(bh.refs) :: (has(bh.seenRefs, bh.refs[k].name) &&
+//@       int(bh.seenRefs[bh.refs[k].name]) == ite(k < int(old(r.id)) + i, k, k + 1))
+//@   loop 0 invariant @tabB forall s string :: has(bh.seenRefs, s) ==> (s == r.name || (0 <= bh.seenRefs[s] && int(bh.seenRefs[s]) <= len(bh.refs) &&
+//@       0 <= ite(int(bh.seenRefs[s]) < int(old(r.id)) + i, int(bh.seenRefs[s]), int(bh.seenRefs[s]) - 1) &&
+//@       ite(int(bh.seenRefs[s]) < int(old(r.id)) + i, int(bh.seenRefs[s]), int(bh.seenRefs[s]) - 1) < len(bh.refs) &&
+//@       bh.refs[ite(int(bh.seenRefs[s]) < int(old(r.id)) + i, int(bh.seenRefs[s]), int(bh.seenRefs[s]) - 1)].name == s))
 //@   ensures[C07] @invA refsA(bh)
 //@   ensures[C07] @invB refsB(bh)
 //@   ensures[C07] @invC refsC(bh)
